@@ -83,6 +83,9 @@ def compare(ir, data, expected, got, mode):
 
 def check_case(case):
     ir, data = case["ir"], case["data"]
+    bad = tsets.validate(ir)
+    if bad:
+        raise core.HarnessError("malformed case (generator bug): " + bad)
     try:
         expected, events = ref.resolve_with_events(ir, data)
     except ref.Ambiguous:
